@@ -37,6 +37,7 @@ RULE = ("literal shapes = exhaustive shape grammar (signs x leading zeros x magn
         "(init, put, set, inc, do with, do per, do cum, need goal, bid period) and through every Convert2* function; "
         "distinct = distinct (context, literal text); non-trivial = the documented order gives a definite outcome "
         "(value, indirect path or rejection) that was compared with what the real code stored")
+RULE = __import__("vf.core", fromlist=["rule_add"]).rule_add(RULE, 'field names recur over commands (k%11), the driver frame is entered twice, an earlier init of the same field is overridden')
 META = {"engine": "A floscript + C function",
         "technique": "runtime observation of stored type/value vs independent classifier of the documented order + round trip",
         "level_text": "exploration: the shape grammar is enumerated completely (same for every seed) and crossed with all "
